@@ -48,6 +48,7 @@ def main():
         try:
             for p in props:
                 t0 = time.time()
+                os.environ["VERIF_EVIDENCE_DIR"] = os.path.join(ROOT, ".scratch", "seeded_evidence")
                 rc, out = sh(["./check", p, tier], cwd=ROOT, timeout=7200)
                 v = [l for l in out.splitlines() if l.startswith("VIOLATION")]
                 broken = [l.strip() for l in out.splitlines() if l.strip().startswith("broken:")]
